@@ -41,11 +41,13 @@ class _StepHooks(Hooks):
     # -- buffer abstraction
     def emit_nonspace(self, c):
         self.events.append(("ns", c))
-        if self.cat == "BLANK":
+        if self.cat in ("EMPTY", "BLANK"):
             self.cat = "HASH" if c == "#" else "SRC"
 
     def emit_space(self):
         self.events.append(("sp",))
+        if self.cat == "EMPTY":
+            self.cat = "BLANK"
 
     def emit_char(self, c):
         if isinstance(c, str) and c.isspace():
@@ -80,6 +82,9 @@ class _StepHooks(Hooks):
                 return list(self.vc)
             if self._is_stack(t):
                 return Sym(t)
+            if t in ("obuf.parts", "self.outbuf.parts") and isinstance(expr.ctx, ast.Load):
+                # only emptiness is modelled
+                return [] if self.cat == "EMPTY" else ["?"]
         if isinstance(expr, ast.Name) and expr.id == "char":
             return self.char
         if isinstance(expr, ast.Compare) and len(expr.ops) == 1 and self._is_stack(u(expr.left)) and isinstance(expr.ops[0], (ast.Eq, ast.NotEq)):
@@ -113,7 +118,7 @@ class _StepHooks(Hooks):
                 self.emit_space()
                 return None
             if meth == "category":
-                return {"BLANK": "BLANK", "HASH": "CPP_DIRECTIVE", "SRC": "SRC_NONBLANK"}[self.cat]
+                return {"EMPTY": "BLANK", "BLANK": "BLANK", "HASH": "CPP_DIRECTIVE", "SRC": "SRC_NONBLANK"}[self.cat]
             raise AnalysisError(f"cleaner: unsupported buffer operation {ftext}")
         if ftext == "inbuffer.putback":
             if self.putback is not None:
@@ -319,7 +324,7 @@ def explore_c(ex: Extracted, directives_only=False, max_depth=6, max_states=2000
     """
     # state: (cbi_stack, cbi_cat, skipping(rest of line ignored after `return`), ref_mode, ref_code,
     #         ref_slash_prev (pending slash sits on an earlier physical line), cbi_log, ref_log, line_has_char)
-    init = (("TOPLEVEL",), "BLANK", False, "CODE", False, False, "N", "N")
+    init = (("TOPLEVEL",), "EMPTY", False, "CODE", False, False, "N", "N")
     seen = {init: None}
     work = deque([init])
     disc = []
@@ -375,7 +380,7 @@ def explore_c(ex: Extracted, directives_only=False, max_depth=6, max_states=2000
                     if out == "raise":
                         disc.append(("raise", "logical_newline raises", trace(s, ev), stack, rm))
                         continue
-                cbi_counts = cat2 != "BLANK"
+                cbi_counts = cat2 not in ("EMPTY", "BLANK")
                 if slash_marks_prev or (rm == "SLASH" and rprev and not cont):
                     disc.append(("D10", "a '/' pending across a backslash-newline is emitted into the next physical line", trace(s, ev), stack, rm))
                     continue
@@ -386,13 +391,13 @@ def explore_c(ex: Extracted, directives_only=False, max_depth=6, max_states=2000
                 if cbi_ends != ref_ends:
                     disc.append(("logical-end", f"logical line ends: cbi={cbi_ends} reference={ref_ends}", trace(s, ev), stack, rm))
                     continue
-                clog2 = clog if clog != "N" else {"BLANK": "N", "HASH": "H", "SRC": "S"}[cat2]
+                clog2 = clog if clog != "N" else {"EMPTY": "N", "BLANK": "N", "HASH": "H", "SRC": "S"}[cat2]
                 if cbi_ends:
                     if (clog2 == "H") != (rlog2 == "H"):
                         disc.append(("directive", f"logical line is a directive: cbi={clog2 == 'H'} reference={rlog2 == 'H'}", trace(s, ev), stack, rm))
                         continue
                     clog2 = rlog2 = "N"
-                n = (st2, "BLANK", False, rm2, False, rprev2, clog2, rlog2)
+                n = (st2, "EMPTY", False, rm2, False, rprev2, clog2, rlog2)
             else:
                 ch = ev
                 rm2, marks = ref_c_step(rm, ch)
@@ -435,7 +440,7 @@ def explore_c(ex: Extracted, directives_only=False, max_depth=6, max_states=2000
     eof_bad = []
     for s in seen:
         stack, cat, skipping, rm, rcode, rprev, clog, rlog = s
-        at_boundary = cat == "BLANK" and not rcode and clog == "N" and rlog == "N"
+        at_boundary = cat == "EMPTY" and not rcode and clog == "N" and rlog == "N"
         if at_boundary and rm == "CODE" and not rprev and stack != ("TOPLEVEL",):
             eof_bad.append(s)
     for s in eof_bad[:5]:
@@ -528,7 +533,7 @@ def explore_fortran(ex: FortranExtracted, max_depth=6, max_states=60000):
     """
     # ref line-local modes: START, CODE, DQ, SQ, AMP (& seen in code), SAMP_D/SAMP_S (& seen in string, only blanks since),
     #   CB (just saw !), CA (alpha after !), CS (sentinel), CD (dead comment)
-    init = (("TOPLEVEL",), "BLANK", (), None, False, 0, False, None, "START", False, False, 0)
+    init = (("TOPLEVEL",), "EMPTY", (), None, False, 0, False, None, "START", False, False, 0)
     # (stack, cat, vc, dc_state, skip, dc_found, | cont, strq, mode, text, sentinel, amp_cont)
     seen = {init: None}
     work = deque([init])
@@ -632,7 +637,7 @@ def explore_fortran(ex: FortranExtracted, max_depth=6, max_states=60000):
                 if out == "raise":
                     disc.append(("raise", "end-of-line handling raises", trace(s, ev), stack, mode))
                     continue
-                cbi_counted = cat2 != "BLANK"
+                cbi_counted = cat2 not in ("EMPTY", "BLANK")
                 if cbi_counted != counted:
                     disc.append(("count", f"physical line counted={cbi_counted}, reference={counted} (text={text}, sentinel={sent})", trace(s, ev), stack, mode))
                     continue
@@ -640,7 +645,7 @@ def explore_fortran(ex: FortranExtracted, max_depth=6, max_states=60000):
                 if cbi_ends != ends:
                     disc.append(("logical-end", f"statement ends: cbi={cbi_ends} reference={ends}", trace(s, ev), stack, mode))
                     continue
-                n = (st2, "BLANK", vc2, None, False, 0, cont2, strq2, "START", False, False, 0)
+                n = (st2, "EMPTY", vc2, None, False, 0, cont2, strq2, "START", False, False, 0)
             else:
                 r = ref_char(cont, strq, mode, text, sent, amp, ev)
                 if r is None:
